@@ -1,5 +1,6 @@
 import BGV.Props.C04U
 import BGV.Props.C01M
+import BGV.Proofs.Convert2
 /-!
 # Property C04 — degrees and the adjacency matrix of multigraphs are the multiplicity-weighted
 counts
@@ -89,5 +90,103 @@ theorem C04_und_degree (m : MG) (h : MUInv m) (v : Nat) (hv : v < m.g.size) (twi
     simp [this, hc]
 
 example : (MG.uGetDegree ((MG.new 3).uRun [.addMultiedge 0 1 3, .addMultiedge 2 2 2, .addEdge 2 0]) 2 true) = .ok 5 := by decide
+
+end BGV
+
+namespace BGV
+open G MG
+
+/-- the nested loop of the multigraph `getAdjacencyMatrix` when every label lookup succeeds -/
+theorem am_fold (g : G Nat) (lab : Nat → Nat → Res Nat) (w : Edge → Nat) (is : List Nat)
+    (hok : ∀ i ∈ is, ∀ j ∈ g.nb i, lab i j = .ok (w (i, j))) (k : Nat → Nat → Nat → Nat) (mat : List (List Nat)) :
+    is.foldl (fun (r : Res (List (List Nat))) i => (g.nb i).foldl (fun (r : Res (List (List Nat))) j =>
+        r.bind (fun mat => (lab i j).map (fun c => bump2 mat i j (k i j c)))) r) (Res.ok mat)
+      = Res.ok ((is.flatMap (fun i => (g.nb i).map (fun j => (i, j)))).foldl (fun m e => bump2 m e.1 e.2 (k e.1 e.2 (w e))) mat) := by
+  induction is generalizing mat with
+  | nil => rfl
+  | cons i is ih =>
+    simp only [List.foldl_cons, List.flatMap_cons, List.foldl_append]
+    have hinner : ∀ (js : List Nat) (mat : List (List Nat)), (∀ j ∈ js, lab i j = .ok (w (i, j))) →
+        js.foldl (fun (r : Res (List (List Nat))) j => r.bind (fun mat => (lab i j).map (fun c => bump2 mat i j (k i j c)))) (Res.ok mat)
+          = Res.ok ((js.map (fun j => (i, j))).foldl (fun m e => bump2 m e.1 e.2 (k e.1 e.2 (w e))) mat) := by
+      intro js
+      induction js with
+      | nil => intro mat _; rfl
+      | cons j js ihj =>
+        intro mat hj
+        simp only [List.foldl_cons, List.map_cons, Res.bind, hj j (by simp), Res.map]
+        exact ihj _ (fun x hx => hj x (by simp [hx]))
+    rw [hinner (g.nb i) mat (hok i (by simp))]
+    exact ih (fun x hx => hok x (by simp [hx])) _
+
+/-- **C04 (undirected): adjacency matrix.** symmetric; entry `(i,j)` is the multiplicity of `{i,j}`,
+a self-loop's multiplicity doubled on the diagonal by default -/
+theorem C04_und_adjacencyMatrix (m : MG) (h : MUInv m) (twice : Bool) :
+    ∃ mat, m.uGetAdjacencyMatrix twice = .ok mat ∧ Square m.g.size mat ∧
+      (∀ i j, getM mat i j = if i = j ∧ twice = true then 2 * (absMU m).mu i j else (absMU m).mu i j) ∧
+      (∀ i j, getM mat i j = getM mat j i) := by
+  have hall : m.g.allInR = true := by
+    simp only [allInR, List.all_eq_true, decide_eq_true_eq]
+    intro l hl j hj
+    obtain ⟨i, hi, rfl⟩ := List.getElem_of_mem hl
+    have : m.g.nb i = m.g.adj[i] := by simp [nb, List.getD_eq_getElem?_getD, hi]
+    exact h.base.base.bound i j (by rw [this]; exact hj)
+  have hmemE : ∀ e, e ∈ m.g.edgeSeq ↔ m.g.hasEdgeRaw e.1 e.2 = true := by
+    intro e; obtain ⟨a, b⟩ := e
+    rw [mem_edgeSeq m.g h.base.base.len, mem_nb_iff]
+  have hes : ∀ e ∈ m.g.edgeSeq, e.1 < m.g.size ∧ e.2 < m.g.size := by
+    intro e he
+    have hm : e.2 ∈ m.g.nb e.1 := (mem_nb_iff m.g _ _).2 ((hmemE e).1 he)
+    exact ⟨h.base.base.bound _ _ ((h.base.sym _ _).1 hm), h.base.base.bound _ _ hm⟩
+  obtain ⟨h1, h2⟩ := foldl_bump2 m.g.size m.g.edgeSeq
+    (fun e => if e.1 == e.2 && twice then 2 * m.g.labD (ordered e.1 e.2) else m.g.labD (ordered e.1 e.2)) hes _ (square_zero m.g.size)
+  have hrun : m.uGetAdjacencyMatrix twice = .ok (m.g.edgeSeq.foldl (fun mm e => bump2 mm e.1 e.2
+      (if e.1 == e.2 && twice then 2 * m.g.labD (ordered e.1 e.2) else m.g.labD (ordered e.1 e.2))) (zeroMatrix m.g.size)) := by
+    simp only [MG.uGetAdjacencyMatrix, hall, Bool.not_true, Bool.false_eq_true, if_false]
+    exact am_fold m.g (fun i j => m.g.uGetEdgeLabel i j true) (fun e => m.g.labD (ordered e.1 e.2)) (List.range m.g.size)
+      (fun i _ j hj => uGetEdgeLabel_edge m.g h.base i j (by simpa [hasEdgeRaw] using hj))
+      (fun i j c => if i == j && twice then 2 * c else c) _
+  have hnd : m.g.edgeSeq.Nodup := by
+    simp only [edgeSeq, List.Nodup]
+    rw [List.pairwise_flatMap]
+    constructor
+    · intro a _
+      rw [List.pairwise_map]
+      exact (h.base.base.nodup a).imp (fun hne hh => hne (Prod.mk.inj hh).2)
+    · have := List.nodup_range (n := m.g.size)
+      refine this.imp ?_
+      intro a b hab x hx y hy hxy
+      simp only [List.mem_map] at hx hy
+      obtain ⟨_, _, rfl⟩ := hx
+      obtain ⟨_, _, rfl⟩ := hy
+      exact hab (Prod.mk.inj hxy).1
+  have hval : ∀ i j, getM (m.g.edgeSeq.foldl (fun mm e => bump2 mm e.1 e.2
+      (if e.1 == e.2 && twice then 2 * m.g.labD (ordered e.1 e.2) else m.g.labD (ordered e.1 e.2))) (zeroMatrix m.g.size)) i j
+      = if i = j ∧ twice = true then 2 * m.umult i j else m.umult i j := by
+    intro i j
+    rw [h2, getM_zero, sum_filter_pair_const _ hnd]
+    have hlab : m.g.labD (ordered i j) = m.umult i j := by
+      simp only [labD, h.lbl, if_true, umult, MG.cur_eq]; rfl
+    by_cases he : m.g.hasEdgeRaw i j = true
+    · simp only [(hmemE (i, j)).2 he, if_true, hlab, Nat.zero_add]
+      by_cases hc : i = j ∧ twice = true
+      · obtain ⟨rfl, rfl⟩ := hc; simp
+      · have : (i == j && twice) = false := by
+          cases twice
+          · simp
+          · simp only [Bool.and_true, beq_eq_false_iff_ne]; intro e; exact hc ⟨e, rfl⟩
+        simp [this, hc]
+    · have hne : (i, j) ∉ m.g.edgeSeq := fun hh => he ((hmemE (i, j)).1 hh)
+      have he' : m.g.hasEdgeRaw i j = false := by simpa using he
+      have hz := (umult_eq_zero_iff m h i j).2 he'
+      simp only [hne, if_false, hz]
+      split <;> rfl
+  refine ⟨_, hrun, h1, hval, ?_⟩
+  intro i j
+  rw [hval, hval, umult_comm m i j]
+  by_cases hij : i = j
+  · subst hij; rfl
+  · have : ¬ j = i := fun e => hij e.symm
+    simp [hij, this]
 
 end BGV
